@@ -528,11 +528,17 @@ func (s *scope) createInstance(descriptor *Descriptor) (any, error) {
 				regKey = reg.Key
 			}
 
-			if reg.Type == descriptor.Type && regKey == descriptor.Key {
+			// The descriptor registered for this field: the one recorded at registration
+			// (named, grouped and unkeyed fields alike), else a lookup by type and key
+			regDescriptor := descriptor.outputForField(reg.Name)
+			if regDescriptor == nil {
+				regDescriptor = s.rootProvider.findDescriptor(reg.Type, regKey)
+			}
+
+			if regDescriptor == descriptor || (reg.Type == descriptor.Type && regKey == descriptor.Key) {
 				primaryService = value
 			}
 
-			regDescriptor := s.rootProvider.findDescriptor(reg.Type, regKey)
 			if regDescriptor == nil {
 				return nil, &ResolutionError{
 					ServiceType: reg.Type,
@@ -542,9 +548,9 @@ func (s *scope) createInstance(descriptor *Descriptor) (any, error) {
 			}
 
 			key := instanceKey{
-				Type:  reg.Type,
-				Key:   regKey,
-				Group: reg.Group,
+				Type:  regDescriptor.Type,
+				Key:   regDescriptor.Key,
+				Group: regDescriptor.Group,
 			}
 
 			s.setInstance(regDescriptor, key, value)
@@ -562,6 +568,7 @@ func (s *scope) createInstance(descriptor *Descriptor) (any, error) {
 
 	// Handle multi-return constructors
 	if descriptor.MultiReturnIndex >= 0 {
+		position := 0
 		for _, ret := range info.Returns {
 			if ret.IsError {
 				continue
@@ -569,8 +576,16 @@ func (s *scope) createInstance(descriptor *Descriptor) (any, error) {
 
 			value := results[ret.Index].Interface()
 
-			// Find the descriptor for this return type
-			serviceDescriptor := s.rootProvider.findDescriptor(ret.Type, nil)
+			// Find the descriptor for this return value: the one recorded at registration
+			// (it may be named or a group member), else a lookup by type
+			var serviceDescriptor *Descriptor
+			if position < len(descriptor.outputs) {
+				serviceDescriptor = descriptor.outputs[position]
+			} else {
+				serviceDescriptor = s.rootProvider.findDescriptor(ret.Type, nil)
+			}
+			position++
+
 			if serviceDescriptor == nil {
 				return nil, &ResolutionError{
 					ServiceType: ret.Type,
@@ -608,6 +623,22 @@ func (s *scope) createInstance(descriptor *Descriptor) (any, error) {
 	s.setInstance(descriptor, key, instance)
 	s.shareWithAliases(descriptor, instance)
 	return instance, nil
+}
+
+// outputForField returns the descriptor registered for the named field of the
+// result object this descriptor's constructor produces, or nil if unknown.
+func (d *Descriptor) outputForField(fieldName string) *Descriptor {
+	if len(d.outputs) != len(d.resultFields) {
+		return nil
+	}
+
+	for i, field := range d.resultFields {
+		if field.Name == fieldName {
+			return d.outputs[i]
+		}
+	}
+
+	return nil
 }
 
 // shareWithAliases makes an instance created for one interface alias (godi.As) the
